@@ -1037,7 +1037,7 @@ class CodeBuilder:
                 #     comp_expr = f"value is not {default_literal}"
                 if isinstance(default, float) and math.isnan(default):
                     self.ensure_object_imported(math.isnan, "isnan")
-                    comp_expr = "not isnan(value)"
+                    comp_expr = "not (isinstance(value, float) and isnan(value))"
                 else:
                     comp_expr = f"value != {default_literal}"
                 with self.indent(f"if {comp_expr}:"):
